@@ -125,6 +125,11 @@ def report_hrefs(world, path, body):
     return names, "", data
 
 
+def case_name(i):
+    """member names with lower, upper and mixed case extensions"""
+    return "c%04d%s" % (i, (".ics", ".ics", ".ICS", ".Ics")[i % 4])
+
+
 def run_time_cases(cases, zone, mode, frontend="wsgi"):
     sc = Scenario(zone, mode)
     w = World(frontend=frontend, prefix="/")
@@ -134,7 +139,7 @@ def run_time_cases(cases, zone, mode, frontend="wsgi"):
         stored = {}
         for i, t in enumerate(cases):
             c = t["c"]
-            name = "c%04d.ics" % i
+            name = case_name(i)
             data = time_case_ics(sc, c, "case-%d-%s-%s" % (i, zone or "utc", mode))
             r = w.request("PUT", "/user/calendars/t/" + name, [("Content-Type", "text/calendar")], data)
             stored[i] = r.status in range(200, 300)
@@ -176,15 +181,19 @@ def run_time_cases(cases, zone, mode, frontend="wsgi"):
             if i in single_got:
                 e, g = single_err[i], single_got[i]
             else:
-                e, g = errs[k], (got[k] is not None and ("c%04d.ics" % i) in got[k])
+                e, g = errs[k], (got[k] is not None and (case_name(i)) in got[k])
             out.append({"c": t["c"], "zone": zone or "UTC", "mode": mode, "stored": stored[i],
-                        "err": e, "got": g, "name": "c%04d.ics" % i})
+                        "err": e, "got": g, "name": case_name(i)})
         return out, {"data_ok": data_ok, "data_checked": checked}
     finally:
         w.close()
 
 
 # --- structural filters -------------------------------------------------------------
+
+# concrete texts of the tokens CalQuery.tla uses for non-ASCII text
+TEXT = {"NONASCII": "Caf\u00e9 Z\u00fcrich", "NONASCII-UP": "CAF\u00e9 Z\u00fcRICH"}
+
 
 def obj_ics(obj, uid):
     lines = ["BEGIN:VCALENDAR", "VERSION:2.0", "PRODID:-//verif//cq//EN"]
@@ -201,7 +210,7 @@ def obj_ics(obj, uid):
                 lines.append("DTSTART:202003%02dT120000Z" % (7 + nev))
                 lines.append("RECURRENCE-ID:202003%02dT100000Z" % (7 + nev))
         if comp["summary"]:
-            lines.append("SUMMARY:" + comp["summary"])
+            lines.append("SUMMARY:" + TEXT.get(comp["summary"], comp["summary"]))
         if comp["att"] == "plain":
             lines.append("ATTENDEE:mailto:a@example.com")
         elif comp["att"] == "accepted":
@@ -218,7 +227,7 @@ def tm_xml(tm):
         return ""
     from xml.sax.saxutils import escape
     return '<C:text-match collation="%s" negate-condition="%s">%s</C:text-match>' % (
-        tm["coll"], "yes" if tm["neg"] else "no", escape(tm["needle"]))
+        tm["coll"], "yes" if tm["neg"] else "no", escape(TEXT.get(tm["needle"], tm["needle"])))
 
 
 def filter_xml(f):
